@@ -85,6 +85,8 @@ func c17Run(op string, v []string, order []int, sticky bool) (obs string, fails 
 		rank[i] = pos
 	}
 	hasSlow := false
+	speaking := 0
+	spoke := make(chan struct{}, 2*n+2)
 	var pairs []*client.KVPair
 	var addrs []string
 	for i := 0; i < n; i++ {
@@ -95,6 +97,10 @@ func c17Run(op string, v []string, order []int, sticky bool) (obs string, fails 
 			hasSlow = true
 		}
 		fs := &fakeServer{id: i, calls: []string{act}, delayMs: rank[i] * c17Slot}
+		if act != "silent" {
+			speaking++
+			fs.acted = func() { spoke <- struct{}{} }
+		}
 		registerFake(addr, fs)
 		addrs = append(addrs, addr)
 		if slow {
@@ -126,10 +132,23 @@ func c17Run(op string, v []string, order []int, sticky bool) (obs string, fails 
 		xc.Call(ctx, "warmup", 1, &w)
 	}
 	if hasSlow {
-		// slow servers complete last, with the deadline error; everyone else has long answered
-		var cancel context.CancelFunc
-		ctx, cancel = context.WithTimeout(ctx, time.Duration((n+2)*c17Slot+300)*time.Millisecond)
+		// slow servers complete last, with the deadline error: the caller's deadline passes a while after every other
+		// server has carried out its scripted action (not after a fixed time: the machine may be busy)
+		base, cancel := context.WithTimeout(ctx, 20*time.Second)
 		defer cancel()
+		dl := newDeadlineCtx(base)
+		ctx = dl
+		go func() {
+			for k := 0; k < speaking; k++ {
+				select {
+				case <-spoke:
+				case <-base.Done():
+					return
+				}
+			}
+			time.Sleep(250 * time.Millisecond)
+			dl.expire()
+		}()
 	}
 	var reply int
 	class := func(err error) string {
